@@ -7,12 +7,12 @@ DESCRIPTION = {
     "level": "exploration",
     "rule": ("(a) Hypothesis draws a valid message of each of the 25 classes (wampwire tables), marshals it, and the check then systematically replaces "
              "every top-level position, every option/detail key present and every known-but-absent option key by each of ~40 typed junk/boundary values "
-             "(None,bool,0,-1,2^53,2^53+1,float,'',text,URIs with empty components/whitespace/trailing newline/#,bytes,[],[x],{}, {1:2}, malformed forward_for), "
+             "(None,bool,0,-1,2^53,2^53+1,+-2^20000 (a CBOR bignum beyond Python's int->str limit),float,'',text,URIs with empty components/whitespace/trailing newline/#,bytes,[],[x],{}, {1:2}, malformed forward_for), "
              "truncates/extends the element count and swaps the type code; each mutated list goes through Serializer.unserialize (CBOR bytes) and Klass.parse. "
              "(b) URI strings over the alphabet {a,A,.,#,space,\\n,\\t,e-acute,_,0} in every URI slot. (c) arbitrary octets and bit-flipped/truncated/spliced valid "
              "serialized messages per serializer.  Oracle: only ProtocolError/InvalidUriError may be raised; an accepted message never holds an id outside "
-             "0..2^53 (or bool), a URI slot value that is not a str fully matching the WAMP loose grammar for that slot, or the injected wrongly-typed value "
-             "in a known option; re-marshalling an accepted message gives back the input value at the mutated slot (or omits a defaulted/ignored key) and "
+             "0..2^53 (or bool), a URI slot value that is not a str fully matching the WAMP loose grammar for that slot, or a wrongly typed value "
+             "in a known option at the Options/Details position (whether the parsed message retains it or silently drops it; enc_* options are judged only in payload form, where they are read); re-marshalling an accepted message gives back the input value at the mutated slot (or omits a defaulted/ignored key) and "
              "parse(marshal(x)) is a fixed point.  Thorough tier adds an atheris (libFuzzer) target: octets -> (serializer, batched) -> unserialize; accepted messages must satisfy the same id/URI strictness and "
              "re-marshal.  Non-trivial = input differs from a valid message in exactly one slot or bytes decode to a list; "
              "distinct by (class, slot, junk value, base digest)."),
